@@ -371,6 +371,14 @@ enum CsOp {
     Add(String, Vec<u8>),
     Delete(usize),
     Modify(usize, Vec<u8>),
+    /// get_id(name): must be the position of the first section with that name (None when there is none)
+    Lookup(String, Option<usize>),
+    /// get_id(name), then delete through the returned id
+    DeleteByName(String),
+    /// get_id(name), then get_section_data_mut through the returned id
+    ModifyByName(String, Vec<u8>),
+    /// an encoding in the middle of the history (its output is compared with the shadow list of that moment)
+    Encode(Vec<(String, Vec<u8>)>),
 }
 
 impl Prop for C28 {
@@ -414,9 +422,15 @@ impl Prop for C28 {
         // add more hostile custom sections by splicing raw sections into the binary
         let mut bytes = g.bytes.clone();
         if let Some((h, mut secs)) = crate::props::c03::split(&bytes) {
+            let mut prev_name: Option<&str> = None;
             for _ in 0..rng.below(4) {
                 let names = ["producers", "target_features", "linking", ".debug_info", "sourceMappingURL", "", "ünï-cödé", "name2", "reloc.CODE"];
-                let nm = *rng.pick(&names);
+                let mut nm = *rng.pick(&names);
+                // 1 in 3: the name of the previously spliced section again (several sections of one name)
+                if let (Some(p), true) = (prev_name, rng.chance(1, 3)) {
+                    nm = p;
+                }
+                prev_name = Some(nm);
                 if nm == "producers" {
                     // a well-formed producers section
                     let mut body = vec![];
@@ -455,10 +469,34 @@ impl Prop for C28 {
         let mut shadow: Vec<(String, Vec<u8>)> = raw_in.customs.clone();
         let n_in = shadow.len();
         let mut ops: Vec<CsOp> = vec![];
-        for _ in 0..rng.below(7) {
-            match rng.below(3) {
+        for _ in 0..rng.below(9) {
+            match rng.below(7) {
+                3 | 4 | 5 if !shadow.is_empty() => {
+                    // by name: 1 in 5 a name that does not occur
+                    let nm = if rng.chance(1, 5) { "no-such-section".to_string() } else { shadow[rng.below(shadow.len())].0.clone() };
+                    let pos = shadow.iter().position(|c| c.0 == nm);
+                    match (rng.below(3), pos) {
+                        (0, Some(p)) => {
+                            shadow.remove(p);
+                            ops.push(CsOp::DeleteByName(nm));
+                        }
+                        (1, Some(p)) => {
+                            let n = rng.below(12);
+                            let data = rng.bytes(n);
+                            shadow[p].1 = data.clone();
+                            ops.push(CsOp::ModifyByName(nm, data));
+                        }
+                        _ => ops.push(CsOp::Lookup(nm, pos)),
+                    }
+                }
+                6 => ops.push(CsOp::Encode(shadow.clone())),
                 0 => {
-                    let nm = format!("{}{}", rng.pick(&["added", "producers", "", "x.y", "dbg"]), rng.below(50));
+                    // 1 in 3: the name of a section that exists already
+                    let nm = if !shadow.is_empty() && rng.chance(1, 3) {
+                        shadow[rng.below(shadow.len())].0.clone()
+                    } else {
+                        format!("{}{}", rng.pick(&["added", "producers", "", "x.y", "dbg"]), rng.below(50))
+                    };
                     let n = rng.below(12);
                     let data = rng.bytes(n);
                     shadow.push((nm.clone(), data.clone()));
@@ -487,10 +525,19 @@ impl Prop for C28 {
                 CsOp::Add(..) => "op:add",
                 CsOp::Delete(..) => "op:delete",
                 CsOp::Modify(..) => "op:modify",
+                CsOp::Lookup(_, Some(_)) => "op:get_id(found)",
+                CsOp::Lookup(_, None) => "op:get_id(none)",
+                CsOp::DeleteByName(..) => "op:delete-by-name",
+                CsOp::ModifyByName(..) => "op:modify-by-name",
+                CsOp::Encode(..) => "op:encode-mid-history",
             });
         }
         let b2 = bytes.clone();
         let ops2 = ops.clone();
+        let twice = rng.chance(1, 3);
+        if twice {
+            out.ob("encoded-twice");
+        }
         // names of added sections must outlive the module
         let leaked: Vec<&'static str> = ops.iter().map(|o| if let CsOp::Add(n, _) = o { Box::leak(n.clone().into_boxed_str()) as &'static str } else { "" }).collect();
         let r = catch(move || {
@@ -507,7 +554,34 @@ impl Prop for C28 {
                         let d = m.custom_sections.get_section_data_mut(CustomSectionID(*i as u32)).expect("section id in range");
                         *d = data.clone();
                     }
+                    CsOp::Lookup(nm, want) => {
+                        let got = m.custom_sections.get_id(nm.clone()).map(|i| *i as usize);
+                        if got != *want {
+                            return Err(format!("get_id-wrong: get_id({:?}) = {:?}, the first section of that name is at {:?} (op {})", nm, got, want, k));
+                        }
+                    }
+                    CsOp::DeleteByName(nm) => {
+                        let id = m.custom_sections.get_id(nm.clone()).ok_or_else(|| format!("get_id-wrong: get_id({:?}) = None for a present section (op {})", nm, k))?;
+                        m.custom_sections.delete(id);
+                    }
+                    CsOp::ModifyByName(nm, data) => {
+                        let id = m.custom_sections.get_id(nm.clone()).ok_or_else(|| format!("get_id-wrong: get_id({:?}) = None for a present section (op {})", nm, k))?;
+                        let d = m.custom_sections.get_section_data_mut(id).expect("section id from get_id");
+                        *d = data.clone();
+                    }
+                    CsOp::Encode(want) => {
+                        let b = m.encode();
+                        match sym::decode(&b) {
+                            Ok(r) if r.customs == *want => {}
+                            Ok(r) => return Err(format!("mid-history-encode-differs: {} custom sections decoded, {} expected (op {})", r.customs.len(), want.len(), k)),
+                            Err(e) => return Err(format!("mid-history-encode-undecodable: {}", e)),
+                        }
+                    }
                 }
+            }
+            // 1 history in 3: the module is encoded twice, the second output is judged
+            if twice {
+                let _ = m.encode();
             }
             Ok::<_, String>(m.encode())
         });
@@ -523,6 +597,10 @@ impl Prop for C28 {
                     CsOp::Add(..) => "add",
                     CsOp::Delete(..) => "delete",
                     CsOp::Modify(..) => "modify",
+                    CsOp::Lookup(..) => "get_id",
+                    CsOp::DeleteByName(..) => "delete-by-name",
+                    CsOp::ModifyByName(..) => "modify-by-name",
+                    CsOp::Encode(..) => "encode",
                 })
                 .collect();
             v.sort();
@@ -535,6 +613,9 @@ impl Prop for C28 {
         };
         match r {
             Err(p) => out.violate(format!("{}:{}", op_class(&ops), p.sig()), detail(json!({"panic": p.json()}))),
+            Ok(Err(e)) if e.starts_with("get_id-wrong") || e.starts_with("mid-history-encode") => {
+                out.violate(format!("{}:{}", op_class(&ops), e.split(':').next().unwrap_or("")), detail(json!({"error": e})))
+            }
             Ok(Err(e)) => out.violate(format!("parse-err:{}", crate::runner::norm_msg(&e)), detail(json!({"error": e}))),
             Ok(Ok(encoded)) => match sym::decode(&encoded) {
                 Err(e) => out.violate("output-undecodable".to_string(), detail(json!({"error": e}))),
